@@ -4,7 +4,10 @@ EXTENDS Services, Json
 CONSTANT MaxLen
 VARIABLES hist
 SInit == hist = <<>>
-SNext == Len(hist) < MaxLen /\ hist' = Append(hist, RandomElement(Universe))     \* TLC's seeded random choice
+\* TLC's simulator picks a successor at random: three of four steps are requests that are likely to be carried out,
+\* the fourth is any request of the universe (RandomElement: enumerating 34 035 successors per step is too slow)
+SNext == /\ Len(hist) < MaxLen
+         /\ \E k \in 1..4 : \E r \in Live : hist' = Append(hist, IF k = 1 THEN RandomElement(Universe) ELSE r)
 SSpec == SInit /\ [][SNext]_hist
 Emit == (Len(hist) = MaxLen) => PrintT(<<"CASE", ToJson([steps |-> hist])>>)
 =============================================================================
